@@ -163,6 +163,27 @@ func runC11(c *ev.Ctx) {
 		disc += found
 	}
 	c.Count("m_discriminating_contents_found_by_bias_scan", int64(disc))
+	// soak: more than 2^16 calls in one process on three fixed requests; call k must decide like call 1
+	for _, nb := range []int{16, 40, 1280} {
+		cs := singleCase{NumByte: nb, Content: gen.Seq{Fam: "slight", N: (nb + 8) * 8, Seed: gen.Mix(seed, 1199, uint64(nb))}, Chunk: mon.ChunkPlan{Kind: "whole"}}
+		first, bad1, _ := evalSingle(cs)
+		n := 70000
+		if nb > 100 {
+			n = 5000
+		}
+		if c.Lite() {
+			n /= 6
+		}
+		data := gen.Pack(cs.Content.Bits())
+		for k := 2; k <= n && !bad1; k++ {
+			v, err := detect.SingleDetect(bytes.NewReader(data), nb)
+			if v != first.Verdict || (err != nil) != (first.Err != "") {
+				c.Violation(fmt.Sprintf("single:soak:numByte=%d:call%d", nb, k), fmt.Sprintf("call number %d returned (%v,%v), the first call (%v,%q)", k, v, err, first.Verdict, first.Err), "single", cs)
+				break
+			}
+		}
+		c.Count("soak_repeated_calls", int64(n))
+	}
 	if c.Lite() {
 		var keep []singleCase
 		for i, cs := range cases {
